@@ -2,8 +2,8 @@
 import ast
 from typing import Any, Callable, Dict, Iterator, List, Optional, Set, Tuple
 
-from ..cfg import ExcTypes
-from ..flow import attr_effects, enclosing_handlers, allfacts
+from ..cfg import ExcTypes, cfg_of
+from ..flow import attr_effects, enclosing_handlers, allfacts, fpaths
 from ..model import ClassInfo, FuncInfo, Program, attr_chain, norm, walk_no_nested
 
 
@@ -715,3 +715,235 @@ def lock_held_steps(path: Any, fn_node: ast.AST, lock: str) -> Dict[int, bool]:
                     elif c.func.attr == 'release':
                         held = False
     return out
+
+
+_MEMO = ('lru_cache', 'cache', 'cached_property', 'memoize', 'memoized')
+
+
+def _memo_decorator(fn_node: ast.AST) -> Optional[str]:
+    for d in getattr(fn_node, 'decorator_list', []):
+        dn = attr_chain(d.func if isinstance(d, ast.Call) else d) or ''
+        if dn.split('.')[-1] in _MEMO:
+            return dn
+    return None
+
+
+def memoised_objects_check(ch: Any, rule: str, classes: Tuple[str, ...]) -> int:
+    """A memoised function returns the SAME object to every caller, on every connection, for the life of the worker.  That is
+    harmless for immutable values and wrong for objects that are edited after they are obtained: the instances of `classes`
+    (repository classes whose fields are assigned outside __init__ / documented as mutable) and builtin containers.  Expected
+    0 sites: no function whose result is such an object carries lru_cache / cache / cached_property, and none of its callers
+    in the same class does the caching for it.  -> number of offending sites"""
+    prog = ch.prog
+    n = 0
+    for fn in prog.all_functions('proxy', include_inlined=True):
+        node = getattr(fn, 'orig_node', fn.node)
+        dn = _memo_decorator(node)
+        if dn is None:
+            continue
+        ann = getattr(node, 'returns', None)
+        ann_t = norm(ann).strip("'\"") if ann is not None else ''
+        base = ann_t.replace('Optional[', '').rstrip(']').split('[')[0].split('.')[-1]
+        returns_cls = base in classes
+        returns_container = base in ('List', 'Dict', 'Set', 'list', 'dict', 'set', 'bytearray', 'DefaultDict', 'OrderedDict')
+        # without an annotation: a constructor call of one of the classes (or cls(...) inside one of them) in a return
+        if not ann_t:
+            for r in walk_no_nested(node):
+                if isinstance(r, ast.Return) and r.value is not None:
+                    for c_ in ast.walk(r.value):
+                        if isinstance(c_, ast.Call) and ((attr_chain(c_.func) or '').split('.')[-1] in classes or (attr_chain(c_.func) == 'cls' and fn.cls is not None and fn.cls.name in classes)):
+                            returns_cls = True
+        if returns_cls or returns_container:
+            n += 1
+            ch.bad(rule, fn, '@%s' % dn, '%s is memoised (@%s) and returns a %s: every caller on every connection gets the same object, so an edit made for one request '
+                   '(a rewritten path, an added header, a consumed buffer) is seen by all later ones' % (fn.qualname, dn, base or 'mutable object'))
+    # built-in positive example so that the matcher is exercised on every run
+    probe = ast.parse("@lru_cache(maxsize=8)\ndef f(x) -> 'Url':\n    return Url(x)\n").body[0]
+    assert _memo_decorator(probe) == 'lru_cache'
+    if n == 0:
+        ch.ok(rule, None, 'memoised constructors', 'no memoised function in proxy/** returns an instance of %s or a builtin container (matcher verified on a built-in example)' % ' / '.join(classes), module_rel='proxy/')
+    return n
+
+
+def optional_field_check(ch: Any, rule: str, cls_name: str, field: str, what: str) -> int:
+    """`field` (e.g. 'self.headers') of class `cls_name` is None in a perfectly valid state (`what`).  Every use of it as an object
+    (subscript, `in`, method call, iteration) must sit behind a BRANCH that established it is there; an `assert` is not such a branch --
+    it turns the valid state into an exception -- and an unguarded use is a TypeError.  Decided on the paths of every method of the class."""
+    prog = ch.prog
+    ci = prog.class_named(cls_name)
+    n = 0
+
+    def derefs(node: ast.AST) -> List[ast.AST]:
+        out: List[ast.AST] = []
+        for x in ast.walk(node):
+            if isinstance(x, ast.Subscript) and attr_chain(x.value) == field:
+                out.append(x)
+            elif isinstance(x, ast.Compare) and any(isinstance(o, (ast.In, ast.NotIn)) for o in x.ops) and any(attr_chain(cmp_) == field for cmp_ in x.comparators):
+                out.append(x)
+            elif isinstance(x, ast.Call) and isinstance(x.func, ast.Attribute) and attr_chain(x.func.value) == field:
+                out.append(x)
+            elif isinstance(x, (ast.For, ast.comprehension)) and attr_chain(x.iter) == field:
+                out.append(x.iter)
+        return out
+
+    def guarded_in_expr(root: ast.AST, d: ast.AST) -> bool:
+        """d sits in the arm of a conditional expression / and-chain inside `root` that is only evaluated when the field is there"""
+        for x in ast.walk(root):
+            if isinstance(x, ast.IfExp):
+                t = norm(x.test).replace(' ', '')
+                in_body = any(y is d for y in ast.walk(x.body))
+                in_else = any(y is d for y in ast.walk(x.orelse))
+                if in_body and t in (field, field + 'isnotNone'):
+                    return True
+                if in_else and t in ('not' + field, field + 'isNone'):
+                    return True
+            if isinstance(x, ast.BoolOp) and isinstance(x.op, ast.And):
+                for k, v in enumerate(x.values[1:], 1):
+                    if any(y is d for y in ast.walk(v)) and any(norm(u).replace(' ', '') in (field, field + 'isnotNone') for u in x.values[:k]):
+                        return True
+            if isinstance(x, ast.BoolOp) and isinstance(x.op, ast.Or):
+                for k, v in enumerate(x.values[1:], 1):
+                    if any(y is d for y in ast.walk(v)) and any(norm(u).replace(' ', '') in ('not' + field, field + 'isNone') for u in x.values[:k]):
+                        return True
+        return False
+    for nm, fn in sorted(list(ci.methods.items()) + list(ci.inlined_methods.items())):
+        if not any(attr_chain(x) == field for x in ast.walk(fn.node) if isinstance(x, ast.Attribute)):
+            continue
+        g = cfg_of(fn, prog, exc_edges=False)
+        bad: Optional[Tuple[str, List[str]]] = None
+        uses = 0
+        for p in fpaths(g, limit=50000):
+            ch.paths += 1
+            ex = p.executed()
+            stored = False
+            for i, nd, lab in ex:
+                if nd.ast is None:
+                    continue
+                a = nd.ast
+                if nd.kind == 'stmt' and isinstance(a, ast.Assert) and any(attr_chain(x) == field for x in ast.walk(a.test) if isinstance(x, ast.Attribute)) and p.exit_kind == 'raise' and i == ex[-1][0]:
+                    bad = ('%s asserts on %s: %s, and then this method raises AssertionError instead of doing its job' % (fn.qualname, field, what), p.describe())
+                probe = a.iter if nd.kind == 'for' else a
+                if nd.kind in ('stmt', 'test', 'for'):
+                    for d in derefs(probe if nd.kind != 'stmt' or not isinstance(a, ast.Assert) else ast.Pass()):
+                        uses += 1
+                        fd = allfacts(p, i)
+                        here = fd.get(field) is True or fd.get(field + ' is None') is False or fd.get(field + ' is not None') is True or stored
+                        if not here and not guarded_in_expr(probe, d):
+                            bad = bad or ('%s uses %s as an object (%s) on a path that did not establish it is there: %s' % (fn.qualname, field, norm(d)[:50], what), p.describe())
+                if nd.kind == 'stmt':
+                    for chn, kind, node_ in attr_effects(a):
+                        if chn == field and kind == 'store' and norm(getattr(node_, 'value', ast.Constant(value=None))) != 'None':
+                            stored = True
+        if uses == 0 and bad is None:
+            continue
+        n += 1
+        ch.check(bad is None, rule, fn, 'uses of %s' % field, 'every use of %s as an object is behind a branch that found it present (%d use(s) on paths)' % (field, uses),
+                 bad[0] if bad else '', witness=bad[1] if bad else None)
+    return n
+
+
+def single_recv_check(ch: Any, rule: str) -> int:
+    """One readiness event pays for ONE non-blocking read.  In the connection class and in the event handlers (proxy/core/connection,
+    proxy/core/base, proxy/http/handler.py, proxy/http/proxy, proxy/http/server) a receive on a connection is neither repeated on a path nor
+    placed inside a loop of the function: a second read without a new readiness event raises BlockingIOError after the first piece was
+    already taken from the kernel (the piece is lost with the exception), or -- on a socket left in blocking mode -- stalls the only
+    thread of the worker until the peer sends again."""
+    prog = ch.prog
+    n = 0
+    scope = ('proxy/core/connection/', 'proxy/core/base/', 'proxy/http/handler.py', 'proxy/http/proxy/', 'proxy/http/server/')
+
+    def is_recv(c_: ast.AST) -> bool:
+        if not (isinstance(c_, ast.Call) and isinstance(c_.func, ast.Attribute) and c_.func.attr == 'recv'):
+            return False
+        recv_on = attr_chain(c_.func.value) or ''
+        return recv_on.split('.')[-1] in ('connection', 'upstream', 'work', 'client', '_conn', 'conn', 'sock')
+    for fn in prog.all_functions('proxy', include_inlined=True):
+        if not fn.module.relpath.startswith(scope):
+            continue
+        sites = [c_ for c_ in walk_no_nested(fn.node) if is_recv(c_)]
+        if not sites:
+            continue
+        n += 1
+        in_loop = [c_ for lp in walk_no_nested(fn.node) if isinstance(lp, (ast.While, ast.For, ast.AsyncFor)) for c_ in ast.walk(lp) if any(c_ is s_ for s_ in sites)]
+        worst = 0
+        wit: List[str] = []
+        if not in_loop:
+            g = cfg_of(fn, prog, exc_edges=False)
+            for p in fpaths(g):
+                ch.paths += 1
+                k = sum(1 for i_, nd_, lab_ in p.executed() if nd_.ast is not None and nd_.kind in ('stmt', 'test') for c_ in walk_no_nested(nd_.ast) if any(c_ is s_ for s_ in sites))
+                if k > worst:
+                    worst, wit = k, p.describe()
+        ch.check(not in_loop and worst <= 1, rule, fn, 'receives per call', 'at most one receive on a connection per call, none in a loop',
+                 '%s reads from the connection %s: only the first read is covered by the readiness event -- the next one raises BlockingIOError after data was already taken '
+                 '(that data is lost with the exception and the exchange is torn down) or blocks the worker\'s only thread until the peer sends more' %
+                 (fn.qualname, 'inside a loop' if in_loop else '%d times on one path' % worst), witness=wit if worst > 1 else None)
+    return n
+
+
+_MUTATORS = ('append', 'extend', 'insert', 'remove', 'pop', 'clear', 'update', 'add', 'discard', 'sort', 'reverse', 'setdefault', 'popitem', '__setitem__', '__delitem__')
+
+
+def shared_config_mutation_check(ch: Any, rule: str) -> int:
+    """The flags namespace (and the module-level defaults behind it) is ONE object per worker, read by every connection.  Code that runs per
+    connection (handlers, plugins, connections, parsers, utils) may read it and must not change it in place: no store / augmented assignment /
+    mutator call on `<...>.flags.<name>` nor on a local that is merely another name for it (`x = self.flags.disable_headers; x += [...]`
+    extends the list every later connection filters with).  Expected 0 sites."""
+    prog = ch.prog
+    scope = ('proxy/http/', 'proxy/core/base/', 'proxy/core/connection/', 'proxy/plugin/', 'proxy/common/utils.py', 'proxy/dashboard/')
+    n = 0
+
+    def is_flag(e: ast.AST) -> bool:
+        chn = attr_chain(e)
+        if chn is None:
+            return False
+        parts = chn.split('.')
+        return 'flags' in parts[:-1] and parts[0] in ('self', 'flags', 'cls')
+    for fn in prog.all_functions('proxy', include_inlined=True):
+        if not fn.module.relpath.startswith(scope) or fn.name == '__init__' and False:
+            continue
+        aliases: Dict[str, str] = {}
+        for s in walk_no_nested(fn.node):
+            if isinstance(s, (ast.Assign, ast.AnnAssign)) and s.value is not None:
+                tgs = s.targets if isinstance(s, ast.Assign) else [s.target]
+                if len(tgs) == 1 and isinstance(tgs[0], ast.Name) and is_flag(s.value):
+                    aliases[tgs[0].id] = norm(s.value)
+        # a name rebound to something else elsewhere is not an alias
+        for s in walk_no_nested(fn.node):
+            if isinstance(s, (ast.Assign, ast.AnnAssign)) and s.value is not None:
+                tgs = s.targets if isinstance(s, ast.Assign) else [s.target]
+                for t in tgs:
+                    if isinstance(t, ast.Name) and t.id in aliases and not is_flag(s.value):
+                        aliases.pop(t.id, None)
+
+        def target_of(e: ast.AST) -> Optional[str]:
+            if is_flag(e):
+                return norm(e)
+            if isinstance(e, ast.Name) and e.id in aliases:
+                return '%s (= %s)' % (e.id, aliases[e.id])
+            return None
+        for s in walk_no_nested(fn.node):
+            hit = None
+            if isinstance(s, ast.AugAssign):
+                hit = target_of(s.target)
+            elif isinstance(s, ast.Assign):
+                for t in s.targets:
+                    if isinstance(t, ast.Subscript):
+                        hit = hit or target_of(t.value)
+                    elif isinstance(t, ast.Attribute) and is_flag(t) and fn.name != '__init__':
+                        hit = hit or norm(t)
+            elif isinstance(s, ast.Delete):
+                for t in s.targets:
+                    if isinstance(t, ast.Subscript):
+                        hit = hit or target_of(t.value)
+            elif isinstance(s, ast.Call) and isinstance(s.func, ast.Attribute) and s.func.attr in _MUTATORS:
+                hit = target_of(s.func.value)
+            if hit:
+                n += 1
+                ch.bad(rule, fn, s, '%s changes %s in place: the flags object is shared by every connection of the worker, so what one request adds or removes here applies to all later connections '
+                       '(e.g. header names taken from one request are stripped from every later one)' % (fn.qualname, hit))
+    probe = ast.parse("x = self.flags.disable_headers\nx += [b'a']").body
+    assert is_flag(probe[0].value)      # type: ignore[attr-defined]
+    if n == 0:
+        ch.ok(rule, None, 'flags mutated per connection', 'no per-connection code stores into or mutates <...>.flags.<name> (matcher verified on a built-in example)', module_rel='proxy/')
+    return n
